@@ -373,6 +373,7 @@ type GenOpts struct {
 	Strings       bool
 	CtlHeavy      bool // favour loops/switch/break/continue/return placement (C04)
 	NoCtlInSwitch bool // stay inside the guard NoCtlUnderOperands
+	Shadow        bool // nested scopes may redeclare (shadow) an outer variable
 }
 
 type gvar struct {
@@ -643,8 +644,25 @@ func (g *gen) stmt(d int) []*N {
 		choice = 14 + g.r.Intn(12)
 	}
 	switch {
-	case choice < 4: // new int variable
+	case choice < 4: // new int variable; in a nested scope it sometimes shadows an outer one
 		name := g.fresh("v")
+		if g.o.Shadow && len(g.scopes) > 1 && g.r.Chance(25) {
+			var outer []gvar
+			inner := map[string]bool{}
+			for _, v := range g.scopes[len(g.scopes)-1] {
+				inner[v.name] = true
+			}
+			for _, sc := range g.scopes[:len(g.scopes)-1] {
+				for _, v := range sc {
+					if v.ty == "int" && !v.cnst && !inner[v.name] {
+						outer = append(outer, v)
+					}
+				}
+			}
+			if len(outer) > 0 {
+				name = Pick(g.r, outer).name
+			}
+		}
 		e := g.intExpr(2)
 		g.declare(name, "int")
 		return []*N{nVar(name, e)}
@@ -883,6 +901,31 @@ func (g *gen) stmt(d int) []*N {
 				n("return", nInfix(op, nId(p), nCall(nId(name), nInfix("-", nId(p), nInt(1))))))
 			g.scopes[len(g.scopes)-1] = append(g.scopes[len(g.scopes)-1], gvar{name: name, ty: "func", cnst: true, arity: 1, req: 1})
 			return []*N{n("expr", ns("func", name, n("params", ns("param", p)), body))}
+		}
+		if g.r.Chance(40) {
+			// a factory with more than 8 locals whose closure captures several of them, called
+			// twice back to back; both closures are used afterwards
+			mk, a, b := g.fresh("mk"), g.fresh("p"), g.fresh("p")
+			var stmts []*N
+			var locals []string
+			k := 8 + g.r.Intn(4)
+			for i := 0; i < k; i++ {
+				l := g.fresh("w")
+				locals = append(locals, l)
+				stmts = append(stmts, nVar(l, nInfix("+", nId(a), nInt(int64(i)))))
+			}
+			x, y := Pick(g.r, locals), Pick(g.r, locals)
+			inner := ns("func", "", n("params", ns("param", b)), nBlock(
+				nAssign(x, "+=", nId(b)),
+				n("return", nInfix("+", nId(x), nInfix("*", nId(y), nInt(2))))))
+			stmts = append(stmts, n("return", inner))
+			outer := ns("func", mk, n("params", ns("param", a)), nBlock(stmts...))
+			g1, g2, r1 := g.fresh("g"), g.fresh("g"), g.fresh("v")
+			a1, a2 := g.intExpr(0), g.intExpr(0)
+			g.scopes[len(g.scopes)-1] = append(g.scopes[len(g.scopes)-1], gvar{name: mk, ty: "mk", cnst: true},
+				gvar{name: g1, ty: "func", cnst: true, arity: 1, req: 1}, gvar{name: g2, ty: "func", cnst: true, arity: 1, req: 1}, gvar{name: r1, ty: "int"})
+			return []*N{n("expr", outer), nVar(g1, nCall(nId(mk), a1)), nVar(g2, nCall(nId(mk), a2)),
+				nVar(r1, nInfix("+", nCall(nId(g1), nInt(1)), nCall(nId(g2), nInt(2))))}
 		}
 		mk, a, b, fn := g.fresh("mk"), g.fresh("p"), g.fresh("p"), g.fresh("g")
 		inner := ns("func", "", n("params", ns("param", b)), nBlock(
